@@ -54,6 +54,10 @@ func (x *exec) call(fr *frame, s *State, cc *ssa.CallCommon, instr ssa.Value, po
 		recv := x.val(fr, cc.Value, s)
 		key := funcKey(cc.Method)
 		if key == "(error).Error" {
+			if x.claims("nilerr") {
+				// err.Error() on a nil error value panics
+				x.oblig(fr, s, "nilerr", x.srcText(pos, "err.Error()"), pos, Not(Eq(App("i-tag", x.term(recv)), "0")), nil)
+			}
 			return x.freshVal("errstr", resT, s)
 		}
 		if isNoopCall(key) {
